@@ -5,6 +5,7 @@ from typing import Any
 from parso.python import tree
 
 from jedi import debug
+from jedi.parser_utils import get_function_name
 from jedi.inference.utils import PushBackIterator
 from jedi.inference import analysis
 from jedi.inference.lazy_value import LazyKnownValue, LazyKnownValues, \
@@ -312,7 +313,7 @@ def _iterate_star_args(context, array, input_node, funcdef=None):
         if funcdef is not None:
             # TODO this funcdef should not be needed.
             m = "TypeError: %s() argument after * must be a sequence, not %s" \
-                % (funcdef.name.value, array)
+                % (get_function_name(funcdef), array)
             analysis.add(context, 'type-error-star', input_node, message=m)
     try:
         iter_ = array.py__iter__
@@ -333,6 +334,6 @@ def _star_star_dict(context, array, input_node, funcdef):
     else:
         if funcdef is not None:
             m = "TypeError: %s argument after ** must be a mapping, not %s" \
-                % (funcdef.name.value, array)
+                % (get_function_name(funcdef), array)
             analysis.add(context, 'type-error-star-star', input_node, message=m)
         return {}
